@@ -119,6 +119,10 @@ def check_best_of(ck, repo, f: FuncInfo, data_param, grid):
     ck.ob("P3", f.qualname, "selection happens inside the candidate loop", where, loop is not None)
     if loop is None:
         return
+    outer = [l for l in ast.walk(f.node) if isinstance(l, ast.For) and any(x is n for x in ast.walk(l))]
+    exits = [x for l in outer for x in ast.walk(l) if isinstance(x, (ast.Break, ast.Continue, ast.Return))]
+    ck.ob("P3", f.qualname, "every candidate of the grid is fitted and compared (no early exit from the candidate loops)", where, not exits,
+          "; ".join("%s at line %d" % (type(x).__name__.lower(), x.lineno) for x in exits))
     loss_defs = [st for st in loop.body if isinstance(st, ast.Assign) and any(isinstance(t, ast.Name) and t.id == loss for t in st.targets)]
     ck.ob("P3", f.qualname, "loss of the candidate is computed in the same iteration", where, len(loss_defs) == 1)
     if len(loss_defs) == 1:
